@@ -58,8 +58,29 @@ def plan_st(draw, tier):
     queries = []
     for _ in range(draw(st.integers(1, 3))):
         queries.append(h.queries())
+    long_history = None
+    if cfg["np"] and len(sizes) >= 2 and draw(st.integers(0, 3 if cfg["np"][0] == "Clusters" else 19)) == 0:
+        # a long history followed by small updates: the first chunk is repeated (with a drift that keeps the rows
+        # distinct) until it has more than 1100 rows, the later chunks stay as they are - optionally moved to a region
+        # of their own, where a from-scratch clustering of everything differs from one refined from the old clusters
+        long_history = {"times": -(-1100 // sizes[0]), "shift_later": draw(st.sampled_from([0, 0, 40, -25]))}
     return {"config": cfg, "decisions": dec, "rewards": rew, "contexts": ctxs, "sizes": sizes,
-            "first_partial": first_partial, "queries": queries, "family": h.family, "mid_queries": mid_queries}
+            "first_partial": first_partial, "queries": queries, "family": h.family, "mid_queries": mid_queries,
+            "long_history": long_history}
+
+
+def expand(plan):
+    """The data set as trained on: the plan's rows, or (long_history) the first chunk repeated with a drift."""
+    dec, rew, cx, sizes = plan["decisions"], plan["rewards"], plan["contexts"], plan["sizes"]
+    lh = plan.get("long_history")
+    if not lh:
+        return dec, rew, cx, sizes
+    f, t = sizes[0], lh["times"]
+    dec2 = list(dec[:f]) * t + list(dec[f:])
+    rew2 = list(rew[:f]) * t + list(rew[f:])
+    cx2 = [[v + r / 1024.0 for v in row] for r in range(t) for row in cx[:f]] + \
+          [[v + lh["shift_later"] for v in row] for row in cx[f:]]
+    return dec2, rew2, cx2, [f * t] + list(sizes[1:])
 
 
 def strategy(tier, ctx):
@@ -68,13 +89,13 @@ def strategy(tier, ctx):
 
 def evaluate(plan, ctx):
     cfg = plan["config"]
-    dec, rew, cx = plan["decisions"], plan["rewards"], plan["contexts"]
+    dec, rew, cx, sizes_x = expand(plan)
     a = ops.build(cfg)
     b = ops.build(cfg)
     twin.must_succeed(a, [["fit", dec, rew, cx]], "batch fit")
     pos = 0
     chunk_ops = []
-    for i, s in enumerate(plan["sizes"]):
+    for i, s in enumerate(sizes_x):
         name = "fit" if (i == 0 and not plan["first_partial"]) else "partial_fit"
         chunk_ops.append([name, dec[pos:pos + s], rew[pos:pos + s], cx[pos:pos + s] if cx is not None else None])
         if plan.get("mid_queries") and plan["mid_queries"][i] and i + 1 < len(plan["sizes"]):
@@ -108,7 +129,7 @@ def evaluate(plan, ctx):
                 if not ops.same(pa, pb):
                     raise Violation("batch_vs_chunked_predict", "query %s: batch %s, chunked %s (chunks %r)"
                                     % (ops.short(q, 80), ops.short(pa), ops.short(pb), plan["sizes"]))
-    sizes = plan["sizes"]
+    sizes = sizes_x
     nt = False
     if len(sizes) >= 2:
         pos = 0
@@ -120,6 +141,8 @@ def evaluate(plan, ctx):
     ev = twin.pair_events(cfg) + ["align=" + mode, "exact" if exact else "tolerance", "chunks=%d" % min(len(sizes), 6)]
     if plan["first_partial"]:
         ev.append("first_call_partial_fit")
+    if plan.get("long_history"):
+        ev.append("history_of_more_than_1100_rows_then_small_chunks")
     return Result(nt, ev)
 
 
